@@ -33,10 +33,15 @@ CONSTANTS MaxN, Names, KindSet
 DefKinds == {"def", "adef", "cm", "sm", "prop", "setter"}          \* function definitions
 ClassKinds == {"class", "exc"}
 FlowKinds == {"if", "ifmain", "try", "with", "for", "while"}
-LeafKinds == {"assign", "oldcm", "oldsm", "docstr"}                  \* x = <literal> ; f = classmethod(f) ; f = staticmethod(f) ; a bare string
+LeafKinds == {"assign", "oldcm", "oldsm", "docstr", "mivar", "mivard"}
+   \* x = <literal> ; f = classmethod(f) ; f = staticmethod(f) ; a bare string ;
+   \* mivar: "def _m<i>(self): self.x = <literal>" - a method (named after its own node, so never a duplicate) whose body
+   \*        assigns the INSTANCE variable x;  mivard: the same followed, inside the method, by a bare string (documents x)
 AllKinds == DefKinds \cup ClassKinds \cup FlowKinds \cup LeafKinds
 Containers == DefKinds \cup ClassKinds \cup FlowKinds
-OnlyInClass == {"cm", "sm", "prop", "setter", "oldcm", "oldsm"}
+OnlyInClass == {"cm", "sm", "prop", "setter", "oldcm", "oldsm", "mivar", "mivard"}
+IvarKinds == {"mivar", "mivard"}
+MName(i) == "_m" \o ToString(i)                 \* the name of the method a mivar statement defines
 
 VARIABLES n, parent, kind, nm
 vars == <<n, parent, kind, nm>>
@@ -96,6 +101,8 @@ PyFold(seq, k, ns) ==
              PyFold(seq, k + 1, IF nm[i] \in DOMAIN ns /\ ns[nm[i]].kind \in {"method", "async method", "class method", "static method"}
                                   THEN [ns EXCEPT ![nm[i]].kind = IF kind[i] = "oldcm" THEN "class method" ELSE "static method"]
                                   ELSE ns)
+      [] kind[i] \in IvarKinds ->           \* the class gets the method; the assignment in its body binds nothing in the class
+             PyFold(seq, k + 1, [x \in DOMAIN ns \cup {MName(i)} |-> IF x = MName(i) THEN [node |-> i, kind |-> "method"] ELSE ns[x]])
       [] OTHER -> PyFold(seq, k + 1, [x \in DOMAIN ns \cup {nm[i]} |-> IF x = nm[i] THEN [node |-> i, kind |-> PyKind(i)] ELSE ns[x]])
 PyNS(s) == PyFold(SeqOfScope(s), 1, <<>>)
 \* a generated program must be importable: setter needs a property, old-style wrapping needs a function
@@ -129,8 +136,14 @@ PdFold(seq, k, ns) ==
       [] kind[i] = "assign" ->                            \* _handleModuleVar/_handleClassVar
              PdFold(seq, k + 1,
                 IF nm[i] \notin DOMAIN ns THEN [x \in DOMAIN ns \cup {nm[i]} |-> IF x = nm[i] THEN [node |-> i, kind |-> "variable"] ELSE ns[x]]
-                ELSE IF ns[nm[i]].kind \in {"variable", "property"} THEN [ns EXCEPT ![nm[i]].node = IF ns[nm[i]].kind = "variable" THEN i ELSE @]
+                ELSE IF ns[nm[i]].kind \in {"variable", "ivar", "property"} THEN [ns EXCEPT ![nm[i]].node = IF ns[nm[i]].kind = "property" THEN @ ELSE i]
                 ELSE ns)                                  \* the name is a function or class: the assignment is ignored
+      [] kind[i] \in IvarKinds ->                          \* the method, then _handleInstanceVar for the assignment in its body:
+             LET ns1 == [x \in DOMAIN ns \cup {MName(i)} |-> IF x = MName(i) THEN [node |-> i, kind |-> "method"] ELSE ns[x]] IN
+             PdFold(seq, k + 1,
+                IF nm[i] \notin DOMAIN ns1 THEN [x \in DOMAIN ns1 \cup {nm[i]} |-> IF x = nm[i] THEN [node |-> i, kind |-> "ivar"] ELSE ns1[x]]
+                ELSE IF ns1[nm[i]].kind \in {"variable", "ivar"} THEN [ns1 EXCEPT ![nm[i]] = [node |-> i, kind |-> "ivar"]]   \* kind set unconditionally
+                ELSE ns1)                                 \* a property stays a property (the setter is called); a function or class: ignored
       [] OTHER -> PdFold(seq, k + 1, [x \in DOMAIN ns \cup {nm[i]} |-> IF x = nm[i] THEN [node |-> i, kind |-> PdKind(i)] ELSE ns[x]])
 PdNS(s) == PdFold(SeqOfScope(s), 1, <<>>)
 
@@ -152,23 +165,38 @@ Table(which) == LET ss == SetToSortSeq(ScopesOf(which), LAMBDA a, b : a < b)
 \* Reference (PEP 224 / 258 convention pydoctor documents): a string literal IMMEDIATELY after a simple assignment, in the
 \* same block, documents that variable; if several assignments of the name are documented, the last one wins.
 RefDocOf(i) == IF i < n /\ kind[i + 1] = "docstr" /\ parent[i + 1] = parent[i] THEN i + 1 ELSE 0
-RefVarDoc(s, x) == LET ds == {RefDocOf(i) : i \in {j \in NodesIn(s) : kind[j] = "assign" /\ nm[j] = x}} \ {0}
+\* (a mivard statement carries its own string: its "doc statement" is the node itself.)  Only the assignments of the
+\* variable as it finally is count: what documented a variable that a later def / class / property of the same name replaced
+\* went away with it, and a property is not documented by strings at all.
+SameIncarnation(s, x, j) == LET w == PyNS(s)[x].node IN
+   ~\E m \in NodesIn(s) : j < m /\ m <= w /\ nm[m] = x /\ kind[m] \notin {"assign", "mivar", "mivard", "oldcm", "oldsm"}
+RefVarDoc(s, x) == LET isvar == x \in DOMAIN PyNS(s) /\ PyNS(s)[x].kind = "variable"
+                       ds == IF ~isvar THEN {} ELSE
+                             ({RefDocOf(i) : i \in {j \in NodesIn(s) : kind[j] = "assign" /\ nm[j] = x /\ SameIncarnation(s, x, j)}} \ {0})
+                             \cup {j \in NodesIn(s) : kind[j] = "mivard" /\ nm[j] = x /\ SameIncarnation(s, x, j)}
                    IN IF ds = {} THEN 0 ELSE CHOOSE d \in ds : \A e \in ds : e <= d
 \* Transcription: ASTBuilder.currentAttr.  Walk the statements in source order; `cur` is the (scope, name) of the attribute
 \* a following string would document.  addAttribute / _storeCurrentAttr set it, _push / _pop (entering and leaving a class
 \* or function) clear it, visit_Expr consumes it; flow statements (if/try/...) leave it alone.
-Pushes(k) == kind[k] \in ClassKinds \cup (DefKinds \ {"prop"})
+Pushes(k) == kind[k] \in ClassKinds \cup (DefKinds \ {"prop"}) \cup IvarKinds
 LeftBefore(k) == k > 1 /\ \E c \in (({k - 1} \cup Anc(k - 1)) \ ({0} \cup Anc(k))) : Runs(c) /\ Pushes(c)
 PdNSBefore(s, k) == PdFold(SelectSeq(SeqOfScope(s), LAMBDA j : j < k), 1, <<>>)
 \* does the assignment at k touch an Attribute object (new or existing)?  (otherwise it is ignored: the name is a function/class)
-SetsAttr(k) == LET ns == PdNSBefore(Scope(k), k) IN nm[k] \notin DOMAIN ns \/ ns[nm[k]].kind \in {"variable", "property"}
+SetsAttr(k) == LET ns == PdNSBefore(Scope(k), k) IN nm[k] \notin DOMAIN ns \/ ns[nm[k]].kind \in {"variable", "ivar", "property"}
+\* the assignment in the body of the mivar method at k reaches _storeCurrentAttr (not a property, function or class of that name)
+IvarSetsAttr(k) == LET ns == PdNSBefore(Scope(k), k) IN nm[k] \notin DOMAIN ns \/ ns[nm[k]].kind \in {"variable", "ivar"}
+Drop(docs, key) == [d \in DOMAIN docs \ {key} |-> docs[d]]
 RECURSIVE PdWalk(_, _, _)
 PdWalk(k, cur, docs) ==
   IF k > n THEN docs
   ELSE IF ~Runs(k) THEN PdWalk(k + 1, IF LeftBefore(k) THEN <<>> ELSE cur, docs)
   ELSE LET c0 == IF LeftBefore(k) THEN <<>> ELSE cur IN
-    CASE Pushes(k) -> PdWalk(k + 1, <<>>, docs)
-      [] kind[k] = "prop" -> PdWalk(k + 1, <<Scope(k), nm[k]>>, docs)              \* _handlePropertyDef -> addAttribute
+    CASE kind[k] = "mivard" /\ IvarSetsAttr(k) ->        \* pushFunction clears, the assignment sets, the string consumes, popFunction clears
+             PdWalk(k + 1, <<>>, [d \in DOMAIN docs \cup {<<Scope(k), nm[k]>>} |-> IF d = <<Scope(k), nm[k]>> THEN k ELSE docs[d]])
+      [] kind[k] \in IvarKinds -> PdWalk(k + 1, <<>>, docs)
+      \* a definition is a NEW object under that name: what documented the previous holder stays with the superseded object
+      [] Pushes(k) -> PdWalk(k + 1, <<>>, IF kind[k] = "setter" THEN docs ELSE Drop(docs, <<Scope(k), nm[k]>>))
+      [] kind[k] = "prop" -> PdWalk(k + 1, <<Scope(k), nm[k]>>, Drop(docs, <<Scope(k), nm[k]>>))   \* _handlePropertyDef -> addAttribute
       [] kind[k] = "assign" -> PdWalk(k + 1, IF SetsAttr(k) THEN <<Scope(k), nm[k]>> ELSE c0, docs)
       [] kind[k] = "docstr" -> IF c0 = <<>> THEN PdWalk(k + 1, c0, docs)
                                ELSE PdWalk(k + 1, <<>>, [d \in DOMAIN docs \cup {c0} |-> IF d = c0 THEN k ELSE docs[d]])
@@ -178,13 +206,18 @@ PdVarDoc(s, x) == IF <<s, x>> \in DOMAIN PdDocs THEN PdDocs[<<s, x>>] ELSE 0
 DocTable(which) == LET ss == SetToSortSeq(ScopesOf(which), LAMBDA a, b : a < b)
                    IN [k \in 1..Len(ss) |-> [scope |-> ss[k],
                          docs |-> LET ns == IF which = "py" THEN PyNS(ss[k]) ELSE PdNS(ss[k])
-                                      vs == SetToSeq({x \in DOMAIN ns : ns[x].kind \in {"variable", "property"}})
+                                      vs == SetToSeq({x \in DOMAIN ns : ns[x].kind \in {"variable", "ivar", "property"}})
                                   IN [j \in 1..Len(vs) |-> [name |-> vs[j],
                                          doc |-> IF which = "py" THEN RefVarDoc(ss[k], vs[j]) ELSE PdVarDoc(ss[k], vs[j])]]]]
 
-\* design level: the transcription agrees with the reference
-DocumentedIsPyExec == Importable => (ScopesOf("py") = ScopesOf("pd") /\ \A s \in ScopesOf("py") : PyNS(s) = PdNS(s))
+\* design level: the transcription agrees with the reference.  Instance variables are documented on purpose although the
+\* class statement binds nothing for them: a name the interpreter does not bind may be documented as instance variable only,
+\* and a class variable that is also assigned through self is one documented variable (value of either assignment).
+SameNS(s) == LET py == PyNS(s) pd == PdNS(s) IN
+   /\ \A x \in DOMAIN py : x \in DOMAIN pd /\ (IF pd[x].kind = "ivar" THEN py[x].kind = "variable" ELSE pd[x] = py[x])
+   /\ \A x \in DOMAIN pd \ DOMAIN py : pd[x].kind = "ivar"
+DocumentedIsPyExec == Importable => (ScopesOf("py") = ScopesOf("pd") /\ \A s \in ScopesOf("py") : SameNS(s))
 Emit == Importable => PrintT(ToJson([n |-> n, parent |-> parent, kind |-> kind, nm |-> nm,
                                      py |-> Table("py"), pd |-> Table("pd"), pydoc |-> DocTable("py"), pddoc |-> DocTable("pd"),
-                                     agree |-> (ScopesOf("py") = ScopesOf("pd") /\ \A s \in ScopesOf("py") : PyNS(s) = PdNS(s))]))
+                                     agree |-> (ScopesOf("py") = ScopesOf("pd") /\ \A s \in ScopesOf("py") : SameNS(s))]))
 =============================================================================
